@@ -183,6 +183,25 @@ impl ReedSolomonDecoder {
 }
 
 // ======================================================================
+// VERIFICATION HOOKS
+
+#[cfg(feature = "verif-hooks")]
+impl ReedSolomonEncoder {
+    /// Verification hook: the wrapped default-rate encoder.
+    pub fn verif_inner(&self) -> &DefaultRateEncoder<DefaultEngine> {
+        &self.0
+    }
+}
+
+#[cfg(feature = "verif-hooks")]
+impl ReedSolomonDecoder {
+    /// Verification hook: the wrapped default-rate decoder.
+    pub fn verif_inner(&self) -> &DefaultRateDecoder<DefaultEngine> {
+        &self.0
+    }
+}
+
+// ======================================================================
 // TESTS
 
 #[cfg(test)]
